@@ -47,6 +47,8 @@ NLw(tr) == Len(tr.lw)
 (* Constructor observation (C05 naming, C20 initial state)                 *)
 (***************************************************************************)
 JudgeInit(tr) ==
+  \* the labware of a program are valid specifications: a constructor that refuses one leaves nothing to run
+  {Cl("C20.accept", TRUE, ~tr.ctorfail)} \cup
   UNION {
     LET L == tr.lw[k]  g == L.g IN
     {
